@@ -953,3 +953,98 @@ func ruleP3j(c *Ctx) *RuleResult {
 	r.Instances = n
 	return r
 }
+
+// ---------------------------------------------------------------------------
+
+func init() {
+	registerRule("P10", "the creation of the first segments is all or nothing: in the function that calls (*muxerStream).createFirstSegment for every stream, the failing side of that call reaches its return only after emptying the open slots of the streams already handled (a call whose callee stores nil into the open-segment slot, in a loop) — otherwise the next rotation meets a stream without an open part", ruleP10)
+}
+
+func ruleP10(c *Ctx) *RuleResult {
+	r := &RuleResult{Floor: 1, FloorWhat: "fan-outs of createFirstSegment"}
+	inner := c.Method("", "muxerStream", "createFirstSegment")
+	slot := c.Field("", "muxerStream", "nextSegment")
+	if inner == nil || slot == nil {
+		r.undecided("(*muxerStream).createFirstSegment / muxerStream.nextSegment not found")
+		return r
+	}
+	emptiesSlot := func(g *ssa.Function) bool {
+		if g == nil || g.Blocks == nil {
+			return false
+		}
+		for _, st := range storesToField(c, g, slot) {
+			if k, isK := st.Val.(*ssa.Const); isK && k.IsNil() {
+				return true
+			}
+		}
+		return false
+	}
+	n := 0
+	for _, e := range c.callersOf(inner) {
+		fn := e.Caller.Func
+		call, ok := e.Site.(*ssa.Call)
+		if !ok || fn.Blocks == nil {
+			continue
+		}
+		n++
+		key := fmt.Sprintf("%s|all-or-nothing#%d", FuncName(fn), n)
+		what := "after a failed creation of the first segments no stream is left with an open segment while another has none"
+		conds := ifsOnV(fn, func(v ssa.Value) bool {
+			bo, ok := v.(*ssa.BinOp)
+			if !ok || (bo.Op != token.NEQ && bo.Op != token.EQL) {
+				return false
+			}
+			k, isK := bo.Y.(*ssa.Const)
+			return isK && k.IsNil() && bo.X == ssa.Value(call)
+		})
+		if len(conds) == 0 {
+			r.undecided("P10: the result of createFirstSegment is not tested by a branch in %s", FuncName(fn))
+			continue
+		}
+		// single stream (no loop): nothing to roll back
+		inLoop := instrReaches(call, call)
+		if !inLoop {
+			r.ok(key, c.Pos(call.Pos()), FuncName(fn), what, "called once, not per stream")
+			continue
+		}
+		okAll := true
+		for _, ci := range conds {
+			bo := ci.Val.(*ssa.BinOp)
+			start := ci.edgeWhen(bo.Op == token.NEQ).to
+			// from the failing successor: every path to a return passes a call that empties the slot
+			blocked := map[int]bool{}
+			for _, b := range fn.Blocks {
+				for _, in := range b.Instrs {
+					if cc, ok := in.(*ssa.Call); ok && emptiesSlot(cc.Call.StaticCallee()) {
+						blocked[b.Index] = true
+					}
+					if st, ok := in.(*ssa.Store); ok {
+						if f, _ := fieldOfAddr(st.Addr); f == slot {
+							if k, isK := st.Val.(*ssa.Const); isK && k.IsNil() {
+								blocked[b.Index] = true
+							}
+						}
+					}
+				}
+			}
+			// the roll-back sits on the failing side (it is a loop over the streams already handled, so a path with zero
+			// iterations around it exists and is fine)
+			has := false
+			for bi := range blocked {
+				if bi == start || fn.Blocks[start].Dominates(fn.Blocks[bi]) {
+					has = true
+				}
+			}
+			if !has {
+				okAll = false
+			}
+		}
+		if okAll {
+			r.ok(key, c.Pos(call.Pos()), FuncName(fn), what, "the failing side empties the slots of the streams already handled before it returns")
+		} else {
+			r.fail(key, c.Pos(call.Pos()), FuncName(fn), what, "the failing side returns with the streams handled so far left open (finding 23): the leading stream keeps its segment, so createFirstSegment is never called again, and the next rotation dereferences the nil open part of the stream that failed — a panic inside Write with the muxer mutex held")
+		}
+	}
+	r.Instances = n
+	return r
+}
